@@ -247,3 +247,88 @@ Definition step6ids (q : q6i) (a : action) : option q6i :=
 Definition init6 (ep : entry_point) (cup : option N) (st : storage) : q6 :=
   {| cup6 := match cup with Some _ => true | None => false end;
      poll6 := ps_poll (snd (ctx_load (pend st))); ph6_ := Q6Out |}.
+
+(* ------------------------------------------------------------------ C02 *)
+(* A response that fails authentication is a failed exchange and nothing in it is acted upon. *)
+Definition apps_eq_dec : forall a b : list app, {a = b} + {a <> b}.
+Proof. repeat decide equality. Defined.
+Definition opct_eq_dec : forall a b : option pct, {a = b} + {a <> b}.
+Proof. repeat decide equality. Defined.
+
+Inductive f2 := F2None | F2Att | F2Rep | F2Ping.
+Inductive in2 := I2Out | I2Att | I2Rep.
+Record q2 := {
+  cup2 : bool; in2_ : in2; f2_ : f2;
+  lu2 : option (option pct);        (* last-contact time shown to the policy when this check was allowed *)
+  apps2 : option (list app);        (* apps shown to the policy when this check was allowed *)
+  same2 : bool;                     (* the next next-time question must show exactly apps2 *)
+  reason2 : bool                    (* failure reason Internal has been reported *) }.
+Definition q2_set (q : q2) (i : in2) (f : f2) (same : bool) (reason : bool) : q2 :=
+  {| cup2 := cup2 q; in2_ := i; f2_ := f; lu2 := lu2 q; apps2 := apps2 q; same2 := same; reason2 := reason |}.
+Definition forged (cup : bool) (o : http_outcome) : bool :=
+  match o with HResp _ _ au _ => cup && negb au | HErr _ => false end.
+Definition total_events (w : wire) : nat := length (flat_map wa_events (ws_apps (w_sum w))).
+
+Definition step2 (q : q2) (a : action) : option q2 :=
+  match a with
+  | AEvent (EvState (CheckingForUpdates _)) => Some (q2_set q I2Att F2None (same2 q) false)
+  | AMetric (MRequestsPerCheck _ _) => Some (q2_set q I2Rep (f2_ q) (same2 q) (reason2 q))
+  | AHttp w o =>
+      match f2_ q with
+      | F2Att => None                                     (* no retry, no report after a forged update-check response *)
+      | _ =>
+          if forged (cup2 q) o then
+            match in2_ q with
+            | I2Att => Some (q2_set q I2Att F2Att (same2 q) false)
+            | I2Rep => Some (q2_set q I2Rep (match total_events w with O => F2None | S _ => F2Rep end) (same2 q) (reason2 q))
+            | I2Out => Some (q2_set q I2Out F2Ping (same2 q) (reason2 q))
+            end
+          else match f2_ q with
+               | F2Rep => None                            (* the lost event must be recorded before anything else is sent *)
+               | _ => Some (q2_set q (in2_ q) F2None (same2 q) (reason2 q))
+               end
+      end
+  | AInstaller _ _ => match f2_ q with F2Att => None | _ => Some q end
+  | AEvent (EvServerResponse _) => match f2_ q with F2None => Some q | _ => None end
+  | ATimer (WFor _) => match f2_ q with F2Att => None | _ => Some q end
+  | AMetric (MOmahaEventLost _) =>
+      match f2_ q with F2Rep => Some (q2_set q (in2_ q) F2None (same2 q) (reason2 q)) | _ => Some q end
+  | AMetric (MFailureReason r) =>
+      match f2_ q with F2Att => if (r =? 4)%N then Some (q2_set q (in2_ q) F2Att (same2 q) true) else None | _ => Some q end
+  | AMetric _ => match f2_ q with F2Rep => None | _ => Some q end
+  | AEvent (EvSchedule s) =>
+      match f2_ q with
+      | F2Att => match lu2 q with
+                 | Some lu => if opct_eq_dec (s_last_update s) lu then Some q else None
+                 | None => Some q
+                 end
+      | F2Ping => None                                    (* no last-contact change after a forged ping *)
+      | _ => Some q
+      end
+  | AEvent (EvResult r) =>
+      match f2_ q with
+      | F2Att =>
+          match r with
+          | inl (CEOmahaRequest RECupValidation) =>
+              if reason2 q then Some (q2_set q I2Out F2None true false) else None
+          | _ => None
+          end
+      | F2Rep => None
+      | _ => Some (q2_set q I2Out F2None false false)
+      end
+  | APolicy (QCheckAllowed apps s _ _) _ =>
+      Some {| cup2 := cup2 q; in2_ := I2Out; f2_ := F2None; lu2 := Some (s_last_update s); apps2 := Some apps;
+              same2 := false; reason2 := false |}
+  | APolicy (QNextTime apps _ _) _ =>
+      if same2 q then
+        match apps2 q with
+        | Some a0 => if apps_eq_dec apps a0 then Some (q2_set q I2Out F2None false false) else None
+        | None => Some (q2_set q I2Out F2None false false)
+        end
+      else Some (q2_set q I2Out F2None false false)
+  | _ => Some q
+  end.
+
+Definition init2 (cup : option N) : q2 :=
+  {| cup2 := match cup with Some _ => true | None => false end; in2_ := I2Out; f2_ := F2None;
+     lu2 := None; apps2 := None; same2 := false; reason2 := false |}.
